@@ -27,8 +27,8 @@ const (
 
 // Rec is one recorded file-system mutation.
 type Rec struct {
-	Kind string `json:"k"`           // mkdir mkdirall open write close remove removeall rename truncate
-	Path string `json:"p"`           // path relative to the root
+	Kind string `json:"k"`            // mkdir mkdirall open write close remove removeall rename truncate
+	Path string `json:"p"`            // path relative to the root
 	To   string `json:"to,omitempty"` // rename target (relative)
 	Data []byte `json:"d,omitempty"`  // write payload
 	Off  int64  `json:"o,omitempty"`  // write offset / truncate size
@@ -47,12 +47,13 @@ type root struct {
 	log    []Rec
 	tag    string
 	// fault injection: the faultAt-th mutation (0-based, counted since Arm) fails
-	armed   bool
-	faultAt int
-	count   int
-	short   bool // a faulted write first writes half of its payload
-	fired   bool
-	nextFD  int
+	armed    bool
+	faultAt  int
+	count    int
+	short    bool // a faulted write first writes half of its payload
+	fired    bool
+	failFrom bool // every mutation from faultAt on fails
+	nextFD   int
 }
 
 var (
@@ -137,10 +138,18 @@ func Arm(prefix string, k int, short bool) {
 	with(prefix, func(r *root) { r.armed, r.faultAt, r.count, r.short, r.fired = true, k, 0, short, false })
 }
 
+// ArmFrom makes the k-th mutation from now on and EVERY later one fail (the storage is gone:
+// disk full, volume unmounted, directory replaced).
+func ArmFrom(prefix string, k int) {
+	with(prefix, func(r *root) {
+		r.armed, r.faultAt, r.count, r.short, r.fired, r.failFrom = true, k, 0, false, false, true
+	})
+}
+
 // Disarm stops fault injection and reports how many mutations were counted
 // since Arm and whether the fault fired.
 func Disarm(prefix string) (count int, fired bool) {
-	with(prefix, func(r *root) { count, fired = r.count, r.fired; r.armed = false; r.faultAt = -1 })
+	with(prefix, func(r *root) { count, fired = r.count, r.fired; r.armed = false; r.faultAt = -1; r.failFrom = false })
 	return
 }
 
@@ -169,7 +178,7 @@ func (r *root) mutate(rec Rec) verdict {
 	if r.armed {
 		k := r.count
 		r.count++
-		if k == r.faultAt {
+		if k == r.faultAt || (r.failFrom && k > r.faultAt) {
 			r.fired = true
 			return verdict{fail: true, short: r.short}
 		}
